@@ -20,7 +20,8 @@ func init() {
 			"hex(measurement) in the object name is lower case (as the published bucket objects are); the name model is family prefix ovmf_x64_csm / sevsnp|tdx / hex .binarypb",
 			"the quote in hand is the supplied quote when it names a 48-byte measurement, else the provider's; only its URL may be fetched",
 			"a URI locator selected by the documented precedence (raw > variable > device path > URI among manufacturer-matching events) is fetched verbatim and is not judged as a missed local source",
-			"rejections and results under forced fetch are counted, not judged, except for the URLs requested",
+			"rejections are counted, not judged; under forced fetch with a getter and a 48-byte measurement in hand the request list must be exactly that measurement's URL and a getter answer is what comes back; without such a measurement only the URLs are judged (none may be requested)",
+			"boot event logs: three quarters are short, one quarter (and every log of the events family) carries 10-400 ordinary events with SHA-1/256/384 digest sets and data sizes up to 64 KiB before and after the RIM events",
 			"quotes are built from go-sev-guest's test chain and go-tdx-guest's sample quote in the documented formats; a QuoteV4 proto (not a documented format) carries no expectation about recognition; arbitrary bytes belong to C07",
 			"TOCTOU symlink swaps are schedules and are not generated; the scratch tree is static during a case",
 			"the strace monitor runs in the thorough tier only and is skipped with a note when strace cannot start",
@@ -88,6 +89,7 @@ func run(c *core.Ctx) {
 	c.Floor("names/distinct-pairs-and-technology-separation-observed", ns.pairs > 0 && ns.sep > 0)
 	c.Floor("events/emitted-events-parsed-and-led-to-the-variable", evOK > 0)
 	c.Floor("precedence/event-log-evidence-returned", ps.local > 0)
+	c.Floor("precedence/event-log-evidence-returned-from-beyond-4KiB-of-a-long-log", ps.localDeep > 0)
 	c.Floor("precedence/certificate-table-entry-returned", ps.entry > 0)
 	c.Floor("precedence/some-fetch-observed", ps.fetched > 0)
 	c.Floor("precedence/uri-locator-selected", ps.uriSel > 0)
